@@ -662,6 +662,16 @@ static void run_case(vf::Draw& d, vf::Case& c)
         }
         Eigen::SelfAdjointEigenSolver<MatL> e0(MatL(X0l.transpose() * P.Bl * X0l), Eigen::EigenvaluesOnly);
         P.cmin = cos_max_angle(Xp, Vw, P.Bl, e0.eigenvalues()[k - 1]);
+        {
+            // feature for KF-C17-6: is some pair of (projected) start columns B-orthogonal to rounding level, so that X'BX can have an
+            // exactly zero off-diagonal entry (a sparse pattern, which the fill-reducing ordering of SimplicialLDLT then permutes)?
+            MatL Mx = Xp.transpose() * P.Bl * Xp;
+            ld mn = 1;
+            for (Index j = 0; j < k; j++)
+                for (Index i = 0; i < j; i++)
+                    mn = std::min(mn, std::fabs(Mx(i, j)) / std::sqrt(Mx(i, i) * Mx(j, j)));
+            c.feat["start_min_pair_cosine"] = (k >= 2) ? (double) mn : 1.0;
+        }
         if (P.cmin < 0)
         {
             // a start column lies in the span of the constraint vectors: the block the solver iterates on is rank deficient
@@ -890,6 +900,11 @@ static std::string match_(const vf::Violation& v, const vf::Case& c)
     for (const char* tag : {"c1.", "c2."})
         if (v.kind == "iterate_b_orthonormality" && v.detail.compare(0, 3, tag) == 0 && (c.f(std::string(tag) + "coef_rows") > c.f("k") || c.f("stage") == 2))
             return "lobpcg_false_success_iterate_not_orthonormal";
+    // KF-C17-6: orthogonalizeInPlace() uses matrixU() / vectorD() of SimplicialLDLT as if they belonged to M'BM, but with the default
+    // (AMD) ordering they belong to P M'BM P'. Visible at iteration 0 when two start columns are B-orthogonal (exact zero in M'BM) and the
+    // pivots differ: the columns are scaled with each other's pivots, Success is reported for a block with X'BX != I.
+    if (v.kind == "iterate_b_orthonormality" && c.f("stage") == 1 && c.f("c1.coef_rows") == c.f("k") && c.f("start_min_pair_cosine", 1) <= 16 * (double) EPS)
+        return "lobpcg_ldlt_permutation_ignored";
     return "";
 }
 
